@@ -10,6 +10,7 @@ Open Scope Z_scope.
 Record case := {
   k_genome : list chrom;          (* the chrom-size dict, in dict order *)
   k_filter : filt;
+  k_added : list (list (list Z));   (* names handed to successive Genome.with_ignored_added calls *)
   k_entries : list entry;         (* e_chr = index into k_genome; for locations e_start is the position *)
   k_vals : list (list Z);         (* per chromosome of k_genome: array values / sequence bytes (extract, seq) *)
   k_op : op;
@@ -31,8 +32,10 @@ Definition res_eqb (a b : res) : bool :=
   end.
 Definition is_err (r : res) : bool := match r with RErr _ => true | _ => false end.
 
-Definition flags (c : case) : list bool := incl_flags (k_filter c) (k_genome c).
-Definition szs (c : case) : list Z := ctx_sizes (k_filter c) (k_genome c).
+(* the context the operation runs on: from_dict, then the with_ignored_added steps; k_entries index into its dict *)
+Definition fctx (c : case) : gctx := ctx_steps (k_filter c) (k_genome c) (k_added c).
+Definition flags (c : case) : list bool := incl_flags (gx_keep (fctx c)) (gx_dict (fctx c)).
+Definition szs (c : case) : list Z := ctx_sizes (gx_keep (fctx c)) (gx_dict (fctx c)).
 Definition is_geo (o : op) : bool :=
   match o with
   | OPileup g | OMask g | OMerged g _ | OClip g | OExtend g _ | OSorted g => g
@@ -54,7 +57,7 @@ Definition uncode_res (fl : list bool) (r : res) : res :=
 
 (* ------------------------------------------------------------------ the model's answer *)
 Definition model_run (c : case) : res :=
-  let s := szs c in let es := ves c in let us := ctx_us (k_filter c) (k_genome c) in
+  let s := szs c in let es := ves c in let us := ctx_us (gx_keep (fctx c)) (gx_dict (fctx c)) in
   if is_geo (k_op c) && negb (all_included c) then RErr E_INDEX else
   match k_op c with
   | OCoords => model_coords s
